@@ -1501,6 +1501,122 @@ package analysis
 //@   loop 6: invariant forall k in dom(s.allSchemas) :: old(k in dom(s.allSchemas)) || schAt(k, *schema, prefix, name)
 //@   loop 7: invariant forall k in dom(s.allSchemas) :: old(k in dom(s.allSchemas)) || schAt(k, *schema, prefix, name)
 
+// ---- the list-valued views of the reference index (C11) and of the schema index (C12), aspect getters: one element
+// per entry of the underlying map (multiplicity: as many elements as keys), each element taken from an entry, every
+// entry represented.
+//@ func (s *Spec) AllDefinitionReferences()
+//@   aspect getters
+//@   requires s != nil
+//@   modifies nothing
+//@   ensures len(result) == cardInter(dom(s.references.schemas), dom(s.references.schemas))
+//@   ensures forall i in 0..len(result) :: exists k in dom(s.references.schemas) :: result[i] == s.references.schemas[k].String()
+//@   ensures forall k in dom(s.references.schemas) :: inStrs(result, s.references.schemas[k].String())
+//@   loop 1: invariant len(result) == cardInter(seen, dom(s.references.schemas))
+//@   loop 1: invariant forall k in seen :: k in dom(s.references.schemas)
+//@   loop 1: invariant forall i in 0..len(result) :: exists k in seen :: result[i] == s.references.schemas[k].String()
+//@   loop 1: invariant forall k in seen :: inStrs(result, s.references.schemas[k].String())
+
+//@ func (s *Spec) AllParameterReferences()
+//@   aspect getters
+//@   requires s != nil
+//@   modifies nothing
+//@   ensures len(result) == cardInter(dom(s.references.parameters), dom(s.references.parameters))
+//@   ensures forall i in 0..len(result) :: exists k in dom(s.references.parameters) :: result[i] == s.references.parameters[k].String()
+//@   ensures forall k in dom(s.references.parameters) :: inStrs(result, s.references.parameters[k].String())
+//@   loop 1: invariant len(result) == cardInter(seen, dom(s.references.parameters))
+//@   loop 1: invariant forall k in seen :: k in dom(s.references.parameters)
+//@   loop 1: invariant forall i in 0..len(result) :: exists k in seen :: result[i] == s.references.parameters[k].String()
+//@   loop 1: invariant forall k in seen :: inStrs(result, s.references.parameters[k].String())
+
+//@ func (s *Spec) AllResponseReferences()
+//@   aspect getters
+//@   requires s != nil
+//@   modifies nothing
+//@   ensures len(result) == cardInter(dom(s.references.responses), dom(s.references.responses))
+//@   ensures forall i in 0..len(result) :: exists k in dom(s.references.responses) :: result[i] == s.references.responses[k].String()
+//@   ensures forall k in dom(s.references.responses) :: inStrs(result, s.references.responses[k].String())
+//@   loop 1: invariant len(result) == cardInter(seen, dom(s.references.responses))
+//@   loop 1: invariant forall k in seen :: k in dom(s.references.responses)
+//@   loop 1: invariant forall i in 0..len(result) :: exists k in seen :: result[i] == s.references.responses[k].String()
+//@   loop 1: invariant forall k in seen :: inStrs(result, s.references.responses[k].String())
+
+//@ func (s *Spec) AllPathItemReferences()
+//@   aspect getters
+//@   requires s != nil
+//@   modifies nothing
+//@   ensures len(result) == cardInter(dom(s.references.pathItems), dom(s.references.pathItems))
+//@   ensures forall i in 0..len(result) :: exists k in dom(s.references.pathItems) :: result[i] == s.references.pathItems[k].String()
+//@   ensures forall k in dom(s.references.pathItems) :: inStrs(result, s.references.pathItems[k].String())
+//@   loop 1: invariant len(result) == cardInter(seen, dom(s.references.pathItems))
+//@   loop 1: invariant forall k in seen :: k in dom(s.references.pathItems)
+//@   loop 1: invariant forall i in 0..len(result) :: exists k in seen :: result[i] == s.references.pathItems[k].String()
+//@   loop 1: invariant forall k in seen :: inStrs(result, s.references.pathItems[k].String())
+
+//@ func (s *Spec) AllItemsReferences()
+//@   aspect getters
+//@   requires s != nil
+//@   modifies nothing
+//@   ensures len(result) == cardInter(dom(s.references.items), dom(s.references.items))
+//@   ensures forall i in 0..len(result) :: exists k in dom(s.references.items) :: result[i] == s.references.items[k].String()
+//@   ensures forall k in dom(s.references.items) :: inStrs(result, s.references.items[k].String())
+//@   loop 1: invariant len(result) == cardInter(seen, dom(s.references.items))
+//@   loop 1: invariant forall k in seen :: k in dom(s.references.items)
+//@   loop 1: invariant forall i in 0..len(result) :: exists k in seen :: result[i] == s.references.items[k].String()
+//@   loop 1: invariant forall k in seen :: inStrs(result, s.references.items[k].String())
+
+//@ func (s *Spec) AllReferences()
+//@   aspect getters
+//@   requires s != nil
+//@   modifies nothing
+//@   ensures len(result) == cardInter(dom(s.references.allRefs), dom(s.references.allRefs))
+//@   ensures forall i in 0..len(result) :: exists k in dom(s.references.allRefs) :: result[i] == s.references.allRefs[k].String()
+//@   ensures forall k in dom(s.references.allRefs) :: inStrs(result, s.references.allRefs[k].String())
+//@   loop 1: invariant len(result) == cardInter(seen, dom(s.references.allRefs))
+//@   loop 1: invariant forall k in seen :: k in dom(s.references.allRefs)
+//@   loop 1: invariant forall i in 0..len(result) :: exists k in seen :: result[i] == s.references.allRefs[k].String()
+//@   loop 1: invariant forall k in seen :: inStrs(result, s.references.allRefs[k].String())
+
+//@ fun inSchemaRefs(l []SchemaRef, x SchemaRef) bool = exists i in 0..len(l) :: l[i] == x
+//@ func (s *Spec) AllDefinitions()
+//@   aspect getters
+//@   requires s != nil
+//@   modifies nothing
+//@   ensures len(result) == cardInter(dom(s.allSchemas), dom(s.allSchemas))
+//@   ensures forall i in 0..len(result) :: exists k in dom(s.allSchemas) :: result[i] == s.allSchemas[k]
+//@   ensures forall k in dom(s.allSchemas) :: inSchemaRefs(result, s.allSchemas[k])
+//@   loop 1: invariant len(result) == cardInter(seen, dom(s.allSchemas))
+//@   loop 1: invariant forall k in seen :: k in dom(s.allSchemas)
+//@   loop 1: invariant forall i in 0..len(result) :: exists k in seen :: result[i] == s.allSchemas[k]
+//@   loop 1: invariant forall k in seen :: inSchemaRefs(result, s.allSchemas[k])
+
+//@ func (s *Spec) SchemasWithAllOf()
+//@   aspect getters
+//@   requires s != nil
+//@   modifies nothing
+//@   ensures len(result) == cardInter(dom(s.allOfs), dom(s.allOfs))
+//@   ensures forall i in 0..len(result) :: exists k in dom(s.allOfs) :: result[i] == s.allOfs[k]
+//@   ensures forall k in dom(s.allOfs) :: inSchemaRefs(result, s.allOfs[k])
+//@   loop 1: invariant len(result) == cardInter(seen, dom(s.allOfs))
+//@   loop 1: invariant forall k in seen :: k in dom(s.allOfs)
+//@   loop 1: invariant forall i in 0..len(result) :: exists k in seen :: result[i] == s.allOfs[k]
+//@   loop 1: invariant forall k in seen :: inSchemaRefs(result, s.allOfs[k])
+
+//@ fun inRefs(l []spec.Ref, x string) bool = exists i in 0..len(l) :: l[i].String() == x
+// AllRefs: the distinct non-empty renderings, each once
+//@ func (s *Spec) AllRefs()
+//@   aspect getters
+//@   requires s != nil
+//@   modifies nothing
+//@   ensures forall i in 0..len(result) :: result[i].String() != "" && (exists k in dom(s.references.allRefs) :: result[i] == s.references.allRefs[k])
+//@   ensures forall i in 0..len(result) :: forall j in 0..i :: result[j].String() != result[i].String()
+//@   ensures forall k in dom(s.references.allRefs) :: s.references.allRefs[k].String() != "" ==> inRefs(result, s.references.allRefs[k].String())
+//@   loop 1: invariant set != nil && fresh(set)
+//@   loop 1: invariant forall k in seen :: k in dom(s.references.allRefs)
+//@   loop 1: invariant forall i in 0..len(result) :: result[i].String() != "" && (exists k in seen :: result[i] == s.references.allRefs[k])
+//@   loop 1: invariant forall i in 0..len(result) :: forall j in 0..i :: result[j].String() != result[i].String()
+//@   loop 1: invariant forall a string :: (a in dom(set)) <==> inRefs(result, a)
+//@   loop 1: invariant forall k in seen :: s.references.allRefs[k].String() != "" ==> inRefs(result, s.references.allRefs[k].String())
+
 // BEGIN schemas-doc (generated by /verif/tools/gen_schemas_doc.py)
 //@ func (s *Spec) analyzeParameter(prefix, i, param)
 //@   aspect schemas
